@@ -25,7 +25,7 @@ ASSUMPTIONS = [
     "prov:entity of a membership is not treated as single-valued (the library's documented multi-entity compatibility path, not claimed by C05 either): merged memberships may hold several members",
     "formal conflicts are generated on reference arguments and on clearly different times only (equal instants in different zones are not a disagreement for the library)",
 ]
-REQUIRED_CLASSES = {"all": ["merge:same_kind", "collision:cross_kind", "expected:conflict", "in_bundle_merge", "bundle.unified"]}
+REQUIRED_CLASSES = {"all": ["merge:same_kind", "collision:cross_kind", "expected:conflict", "in_bundle_merge", "bundle.unified", "unified_again_after_edit"]}
 
 OTHER_KIND = {"entity": "agent", "agent": "activity", "activity": "entity", "generation": "usage", "usage": "invalidation",
               "invalidation": "generation"}
@@ -92,6 +92,11 @@ def _expand(case):
         if via == "convenience":
             via = "factory"
         ops.append(["rec", o[1], kind, ident, formal, attrs, via])
+    # the same anonymous relation stated twice stays twice (records without identifier are kept as they are)
+    for sel, mode, attrs, prefix, k in case.get("collisions", [])[:2]:
+        anon = [o for o in ops if o[0] == "rec" and o[3] is None]
+        if anon and k % 2:
+            ops.append(list(anon[sel % len(anon)]))
     return dict(case, ops=ops)
 
 
@@ -235,6 +240,28 @@ def check(case, ctx):
                 items.append(_it("not_idempotent"))
         except ProvException:
             items.append(_it("unified_twice_raises"))
+    # unify, complete one of the records through the record API (no record is added), unify again
+    if not items and b.records:
+        from prov.identifier import Namespace
+        si, rec, m = b.records[len(case["ops"]) % len(b.records)]
+        LATE = Namespace("late", "http://late.example/")
+        rec.add_attributes([(LATE["added"], "after-first-unified")])
+        m["attrs"].append((LATE["added"].uri, ("str", "after-first-unified")))
+        must2, may2, expected2, discard2, _ = reference(content_of(b))
+        if not (must2 or may2 or discard2):
+            try:
+                u2 = d.unified()
+                got2 = ordered(u2)
+                items.extend(diff_ordered(expected2[0], got2[0], "doc(after edit)"))
+                gb2 = dict(got2[1])
+                for uri, recs2 in expected2[1]:
+                    if uri in gb2:
+                        items.extend(diff_ordered(recs2, gb2[uri], "%s(after edit)" % uri))
+                ctx.count("unified_again_after_edit")
+            except ProvException:
+                items.append(_it("unified_raises_after_harmless_edit"))
+        before = snapshot(d)
+        eb = dict(expected2[1]) if not (must2 or may2 or discard2) else eb
     # ProvBundle.unified() of every bundle
     if not items:
         for bun in d.bundles:
